@@ -7,5 +7,6 @@ CONSTANTS
   DEV_OwnerImportTwice = FALSE
   DEV_OwnerNaming = FALSE
   DEV_WorldMerge = FALSE
+  DEV_SharedRemap = FALSE
 INVARIANTS FailsExactly MatchesContract MatchesByKey OneImportPerKey UniqueNames Canonical Satisfies SatisfiesAll Idempotent
 CHECK_DEADLOCK FALSE
